@@ -101,6 +101,16 @@ def gen_session(rng):
                                                                      "(newline)", "(display 42)", "(define zz 3)", "zz", "(if #f #f)", "\"a string\"", "'sym", "#t", "1/2", "(vector 1 2)", "'(1 . 2)"], rng.randint(2, 6))
     for e in extra:
         forms.insert(rng.randrange(len(forms) + 1), e)
+    # blocks of consecutive submissions: the SAME text entered several times in a row (each entry is evaluated), values whose printed text ends in blanks
+    # or a line break, and a definition whose value expression has an effect, entered after a line that printed something and before one that fails
+    blocks = [["(define rn 0)", "(set! rn (+ rn 1))", "(set! rn (+ rn 1))", "(set! rn (+ rn 1))", "rn", "rn"],
+              ["(define rv (vector 0))", "(vector-set! rv 0 (+ 1 (vector-ref rv 0)))", "(vector-set! rv 0 (+ 1 (vector-ref rv 0)))", "rv", "(car 1)", "(car 1)", "rv"],
+              ["\"trailing blanks  \"", "\"ends in a line break\\n\"", "'|a |", "(list \"x \")", "\"   \"", "\"\\t\""],
+              ["(define tk 0)", "(define (tick!) (set! tk (+ tk 1)) tk)", "(tick!)", "(define ta (tick!))", "(car 5)", "ta", "tk", "(define tb (tick!))", "(define tc (tick!))", "(list ta tb tc tk)"],
+              ["(display \"same\")", "(display \"same\")", "(newline)", "(newline)", "'same", "'same", "(undefined-thing)", "(undefined-thing)"]]
+    for b in rng.sample(blocks, rng.choice([0, 1, 1, 2])):
+        pos = rng.randrange(len(forms) + 1)
+        forms[pos:pos] = b
     return forms
 
 
